@@ -22,8 +22,8 @@ pub fn def() -> PropDef {
             "non-default reconciliation parameters are injected through the SyncConfig::default() override hook; Replica itself always uses the default",
         ],
         bound: |t| match t {
-            Tier::Quick => json!({"families": ["S12<=3: all ordered pairs, default parameters, memory", "large family (7-entry base, <=2 substitutions): base<->variant, default, memory", "S12<=2 non-trivial pairs: parameters (1,3),(2,2),(3,4) in memory, default on file-backed"], "message_bound": "4 + 2*(|SA|+|SB|)"}),
-            Tier::Thorough => json!({"families": ["S16<=3: all ordered pairs, default, memory", "S24<=2: all ordered pairs, all four parameter settings, memory; non-trivial pairs default on file", "large family (7-entry base, <=2 substitutions): all ordered pairs default memory; base<->variant all parameters both backends"], "message_bound": "4 + 2*(|SA|+|SB|)"}),
+            Tier::Quick => json!({"families": ["S12<=3: all ordered pairs, default parameters, memory", "large family (7-entry base, <=2 substitutions): base<->variant, default, memory", "all pairs of subsets of 8 flat keys under (max_set_size 1, split_factor 3)", "S12<=2 non-trivial pairs: parameters (1,3),(2,2),(3,4) in memory, default on file-backed"], "message_bound": "4 + 2*(|SA|+|SB|)"}),
+            Tier::Thorough => json!({"families": ["S16<=3: all ordered pairs, default, memory", "S24<=2: all ordered pairs, all four parameter settings, memory; non-trivial pairs default on file", "large family (7-entry base, <=2 substitutions): all ordered pairs default memory; base<->variant all parameters both backends", "all pairs of subsets of 9 flat keys under (1,3), (3,4), (2,2)"], "message_bound": "4 + 2*(|SA|+|SB|)"}),
         },
         run,
         replay,
@@ -187,6 +187,15 @@ fn run(ctx: &Ctx, report: &mut Report) {
                 exec(report, base, v, DEFAULT_CFG, BackendKind::Mem);
                 exec(report, v, base, DEFAULT_CFG, BackendKind::Mem);
             }
+            // all pairs of subsets of 8 flat keys under split factor 3 (with the default
+            // factor 2 the middle-pivot code of the splitting step never runs)
+            let flat = flat_states(8);
+            report.fact("states_flat", json!(flat.len()));
+            for a in &flat {
+                for b in &flat {
+                    exec(report, a, b, (1, 3), BackendKind::Mem);
+                }
+            }
             let s12 = states_from_subsets(&universe12(), 2);
             report.fact("states_S12_le2", json!(s12.len()));
             for a in &s12 {
@@ -220,6 +229,15 @@ fn run(ctx: &Ctx, report: &mut Report) {
                     }
                 }
             }
+            let flat = flat_states(9);
+            report.fact("states_flat", json!(flat.len()));
+            for a in &flat {
+                for b in &flat {
+                    for cfg in [(1usize, 3usize), (3, 4), (2, 2)] {
+                        exec(report, a, b, cfg, BackendKind::Mem);
+                    }
+                }
+            }
             let large = large_family();
             report.fact("states_large", json!(large.len()));
             for a in &large {
@@ -243,7 +261,10 @@ fn run(ctx: &Ctx, report: &mut Report) {
 fn one(report: &mut Report, a: &State, b: &State, cfg: Cfg, backend: BackendKind, ordinal: u64) {
     report.evaluations += 1;
     report.traces += 1;
-    let nt = nontrivial_pair(a, b);
+    // for the flat-key family (no prefix relations by construction) a pair is non-trivial when
+    // the sets differ and at least one side has to split a range
+    let nt = nontrivial_pair(a, b)
+        || (a.canon != b.canon && a.model.len().max(b.model.len()) >= 2 && a.canon.iter().all(|s| s.key.starts_with(b"k")));
     if nt {
         report.nontrivial += 1;
     }
